@@ -46,8 +46,13 @@ BoolElem(v) == IF v THEN TrueElem ELSE Empty
 \* key forms: 2 compressed (33 bytes), 4 uncompressed (65), 6 hybrid (65),
 \* 32 x-only (32), 1 a 33-byte string with an undefined prefix byte (0x05),
 \* 31 a 31-byte string (unknown tapscript key type)
+\* 12 a 33-byte string 02 || x with x not the abscissa of a curve point,
+\* 14 a 65-byte string 04 || x || y with (x, y) not on the curve: both pass the
+\* encoding rules (CheckPubKeyEncoding looks at size and prefix only) but do
+\* not decode to a key
 KeyLen(form) == CASE form = 2 -> 33 [] form = 4 -> 65 [] form = 6 -> 65
                   [] form = 32 -> 32 [] form = 1 -> 33 [] form = 31 -> 31
+                  [] form = 12 -> 33 [] form = 14 -> 65
 KeyElem(name, form) == [t |-> "key", b |-> <<form>>, n |-> KeyLen(form), k |-> name, r |-> <<>>]
 
 \* signature: ht hashtype byte; cls encoding class
@@ -80,9 +85,14 @@ ShapeBody(cls) ==
       [] cls = 26 -> 8    \* 30 06 02 ff 01 01 01 01                 R length 255
       [] cls = 27 -> 8    \* 30 06 02 01 01 02 01 01                 strict DER, r = s = 1
 ShapeClasses == 10..27
+\*   30..33 strict DER that passes every encoding rule but does not decode to a
+\*          signature: R = 0, S = 0, R = group order, S = group order (CheckLowS
+\*          of the reference parses such an S as 0: not "high")
+UndecodableSigs == 30..33
 SigLen(cls, ht) == CASE cls = 0 -> 71 [] cls = 1 -> 72 [] cls = 2 -> 72
                      [] cls = 64 -> (IF ht = 0 THEN 64 ELSE 65)
                      [] cls \in ShapeClasses -> ShapeBody(cls) + 1
+                     [] cls \in {30, 31} -> 40 [] cls \in {32, 33} -> 72
 SigElem(name, ht, cls, svc, cs) ==
     [t |-> "sig", b |-> <<ht, cls, svc, cs>>, n |-> SigLen(cls, ht), k |-> name, r |-> <<>>]
 
@@ -264,7 +274,7 @@ MinimalIfViolated(e) == e.n > 1 \/ (e.n = 1 /\ e # TrueElem)
 SigClass(e) ==
     IF e.n = 0 THEN "empty"
     ELSE IF e.t = "sig" THEN (CASE e.b[2] = 0 -> "der" [] e.b[2] = 1 -> "derhighs" [] e.b[2] = 2 -> "ber"
-                                [] e.b[2] = 27 -> "der"        \* well formed; EcdsaValid knows it is valid for nothing
+                                [] e.b[2] \in {27, 30, 31, 32, 33} -> "der"   \* well formed; EcdsaValid knows it is valid for nothing
                                 [] OTHER -> "notder")
     ELSE "notder"
 \* last byte of a non-empty would-be ECDSA signature: only known for signature elements
@@ -281,10 +291,13 @@ SigEncErr(e, c) ==
     ELSE IF Has(c, "STRICTENC") /\ ~DefinedHashType(SigHashType(e)) THEN "sighashtype"
     ELSE ""
 
-KeyCompressed(e) == e.t = "key" /\ e.b[1] = 2
-KeyStrict(e)     == e.t = "key" /\ e.b[1] \in {2, 4}
+KeyCompressed(e) == e.t = "key" /\ e.b[1] \in {2, 12}
+KeyStrict(e)     == e.t = "key" /\ e.b[1] \in {2, 4, 12, 14}
 \* parsable by the ECDSA public key parser (hybrid keys are)
 KeyParsable(e)   == e.t = "key" /\ e.b[1] \in {2, 4, 6}
+
+\* passes the encoding rules but does not decode (the check then simply fails)
+Undecodable(sig, key) == (sig.t = "sig" /\ sig.b[2] \in UndecodableSigs) \/ (key.t = "key" /\ key.b[1] \in {12, 14})
 
 \* CheckPubKeyEncoding
 KeyEncErr(e, c) ==
@@ -411,7 +424,8 @@ CheckSigLegacy(s, c, script, code) ==
          ELSE IF se # "" THEN Failed(se)
          ELSE IF ke # "" THEN Failed(ke)
          ELSE LET ok == EcdsaValid(sig, key, s, c, script, code) IN
-              IF ~ok /\ Has(c, "NULLFAIL") /\ sig.n > 0 THEN Failed("nullfail")
+              IF ~ok /\ Has(c, "NULLFAIL") /\ sig.n > 0
+                 THEN Failed(IF Undecodable(sig, key) THEN "nullfail-undecodable" ELSE "nullfail")
               ELSE WithStack(s, Append(PopN(s.st, 2), BoolElem(ok)))
 
 \* tapscript signature check shared by CHECKSIG(VERIFY) and CHECKSIGADD:
